@@ -13,4 +13,5 @@ CONSTANTS
   BugCache = FALSE
   BugAccessorMutates = TRUE
   BugJsonAlias = FALSE
+  BugEntryPointWritesTables = FALSE
 CHECK_DEADLOCK FALSE
